@@ -31,7 +31,7 @@ ASSUMPTIONS = ["caches that are not settings are excluded from the snapshot: Mod
                "part of the user's configuration)"]
 REQUIRED_COUNTERS = ["observations", "snapshots_compared", "snapshot_leaves", "standalone_exposures",
                      "entries_vs_standalone", "permutation_pairs", "subset_pairs", "persistence_cases",
-                     "preloaded_cases", "dask_cases"]
+                     "preloaded_cases", "dask_cases", "readout_sweeps"]
 TIMEOUT = {"quick": 900, "thorough": 3600}
 LEVEL_TEXT = ("Exploration by runtime monitoring: hostile stateful models are swept by the real Observation; the caller's "
               "objects are snapshotted structurally before and after; every labelled entry is compared bucket by bucket "
@@ -42,12 +42,18 @@ LEVEL_NOTE = "Trusted: vf.snapshot walker, xarray label selection, determinism o
 _LOCK = threading.Lock()
 
 
-def append_arg(detector, lst=None, k=0.0, **kw):
-    """Hostile: mutates its own list argument in place; encodes the list into the photon bucket."""
+def append_arg(detector, lst=None, k=0.0, cfg=None, **kw):
+    """Hostile: mutates its own list argument and a container nested two levels deep inside another
+    argument, in place; encodes both into the photon bucket."""
     lst.append(float(k))
+    nested = 0.0
+    if cfg is not None:
+        cfg["layers"][0]["level"] += float(k)
+        cfg["layers"][-1]["hist"].append(float(k))
+        nested = cfg["layers"][0]["level"] * 1000.0 + len(cfg["layers"][-1]["hist"])
     shape = detector.geometry.shape
     arr = np.zeros(shape)
-    arr.flat[0] = float(sum(lst))
+    arr.flat[0] = float(sum(lst)) + nested
     arr.flat[1] = float(len(lst))
     arr.flat[2] = float(k)
     arr.flat[3] = float(detector.environment.temperature)
@@ -82,7 +88,8 @@ def pipeline_spec(case, k=None):
     """k=None: the caller's pipeline (k at its configured value 1.0); else value baked in."""
     pspec = {
         "photon_collection": [{"name": "app", "func": "vf.checks.c06.append_arg",
-                               "arguments": {"lst": [1.0, 2.0], "k": 1.0 if k is None else k}}],
+                               "arguments": {"lst": [1.0, 2.0], "k": 1.0 if k is None else k,
+                                             "cfg": {"layers": [{"level": 1.0, "hist": []}, {"level": 2.0, "hist": [0.5]}]}}}],
         "charge_generation": [{"name": "wc", "func": "vf.probes.writer2",
                                "arguments": {"plan": {"*": ["charge"]}, "seed": case["seed"]}}],
         "charge_collection": [{"name": "wp", "func": "vf.probes.writer2",
@@ -173,7 +180,35 @@ def same_entry(a, b):
     return None
 
 
+def readout_sweep_case(rec, index, case):
+    """Sweeping the readout times (honoured by the dask path) must not change the caller's Readout."""
+    import pyxel
+    from pyxel.exposure import Readout
+    from pyxel.observation import Observation, ParameterValues
+    detector = make_preloaded_detector(case)
+    pipe = build.make_pipeline(pipeline_spec(case))
+    readout = Readout(times=[9.0], non_destructive=case["non_destructive"])
+    obs = Observation(parameters=[ParameterValues(key="observation.readout.times", values=[1.5, 2.5, 4.0])],
+                      readout=readout, with_dask=True)
+    before = snapshot.snap({"detector": detector, "pipeline": pipe, "readout": readout})
+    try:
+        tree = pyxel.run_mode(mode=obs, detector=detector, pipeline=pipe, with_inherited_coords=True)
+        tree["/bucket"].to_dataset().load()
+    except Exception as exc:  # noqa: BLE001
+        rec.count("readout_sweep_refused")
+        rec.observe("readout_sweep_errors", f"{type(exc).__name__}: {str(exc)[:80]}")
+        return
+    rec.count("readout_sweeps")
+    after = snapshot.snap({"detector": detector, "pipeline": pipe, "readout": readout})
+    changed = snapshot.diff(before, after)
+    if changed:
+        rec.violation("C06:dask:caller-objects-changed:readout-times-sweep",
+                      f"{len(changed)} leaves of the caller's objects changed by a sweep of the readout times: {changed[:5]}", case, index)
+
+
 def run_case(rec, index, case):
+    if case["dask"] and index % 3 == 0:
+        readout_sweep_case(rec, index, case)
     sig = (case["kind"], case["persistence"], case["n_steps"], case["values"], case["temps"],
            case["non_destructive"], case["preload"], case["dask"])
     tag = "dask" if case["dask"] else "seq"
